@@ -139,7 +139,10 @@ public:
           {
             Job job = {0, 0};
             if (_queue.push(job))
+            {
               --_threadCount;
+              _enqueuedSignal.set(); // wake a worker for it
+            }
           }
           for (PoolList<ThreadContext>::Iterator i = _threads.begin(), end = _threads.end(); i != end;)
           {
